@@ -76,7 +76,10 @@ Record DInv (s : state) : Prop := {
   d_root : forall g, In g (groups s) -> root_once s (g_batch g) (g_id g);
   d_gcontig : forall g, In g (groups s) -> forall g', 0 <= g' <= g_id g -> find_group s (g_batch g) g' <> None;
   d_gkeys : NoDup (map (fun g => (g_batch g, g_id g)) (groups s));
-  d_jgroup : forall x, In x (jobs s) -> find_group s (j_batch x) (j_group x) <> None
+  d_jgroup : forall x, In x (jobs s) -> find_group s (j_batch x) (j_group x) <> None;
+  d_bfresh : forall bt, In bt (batches s) -> b_id bt < next_batch s;
+  d_gbatch : forall g, In g (groups s) -> find_batch s (g_batch g) <> None;
+  d_ancgrp : forall r, In r (ancestors s) -> find_group s (fst (fst (fst r))) (snd (fst (fst r))) <> None
 }.
 
 (** Client-side well-formedness that the front end's schema validation enforces before the handlers run
@@ -129,7 +132,7 @@ Qed.
 (** [DInv] only looks at the core tables. *)
 Lemma DInv_core s s' : core_eq s s' -> DInv s -> DInv s'.
 Proof.
-  intros H D. pose proof H as (E1&E2&E3&E4&E5&E6&E7&E8).
+  intros H D. pose proof H as (E1&E2&E3&E4&E5&E6&E7&E8&E9).
   destruct D. constructor.
   - unfold Kjobs. rewrite E6. assumption.
   - rewrite E2. assumption.
@@ -151,6 +154,9 @@ Proof.
   - rewrite E3. intros g Hg g' R. rewrite (core_eq_find_group _ _ _ _ H). eauto.
   - rewrite E3. assumption.
   - rewrite E6. intros x Hx. rewrite (core_eq_find_group _ _ _ _ H). auto.
+  - rewrite E1, E9. assumption.
+  - rewrite E3. intros g Hg. rewrite (core_eq_find_batch _ _ _ H). auto.
+  - rewrite E4. intros r Hr. rewrite (core_eq_find_group _ _ _ _ H). auto.
 Qed.
 
 Lemma DInv_init : DInv init.
